@@ -279,7 +279,11 @@ def check_connection(case):
     except Exception as e:
         return (f"connection.raises.{type(e).__name__}", f"{case!r}: valid bundle connection rejected: "
                                                          f"{type(e).__name__}: {str(e)[-140:]}", w)
-    diff = compare(want, package_meaning(pkg, parent.name))
+    from rtc.meaning import InvalidPackage
+    try:
+        diff = compare(want, package_meaning(pkg, parent.name))
+    except InvalidPackage as e:
+        diff = [f"the exported package is not a circuit: {e}"]
     if diff:
         return ("connection.members-disagree", f"{case!r}: {diff[0][:260]}", w)
     return None
